@@ -81,9 +81,12 @@ def client_execute(case, stats):
         steps = steps[:at] + [("PREPEND", b"/v")] + steps[at:]
         ini = dict(ini, uri=ini["uri"] if ini["uri"].endswith(b"/") else ini["uri"] + b"/")
     survivors = ini
+    hk = [a for n, a in steps if n == "HEADER"] + [a.partition(b": ")[0] for n, a in steps if n in ("_HEADER", "_HOSTHEADER")]
+    pk = [a for n, a in steps if n == "PARAMETER"] + [a.partition(b"=")[0] for n, a in steps if n == "_PARAMETER"]
+    if ini:
+        # names the program itself writes are overwritten, whether the clash was arranged ("collide") or is a coincidence
+        survivors = {"uri": ini["uri"], "params": {k: v for k, v in ini["params"].items() if k not in pk}, "headers": {k: v for k, v in ini["headers"].items() if k not in hk}}
     if ini and case.get("collide"):
-        hk = [a for n, a in steps if n == "HEADER"] + [a.partition(b": ")[0] for n, a in steps if n in ("_HEADER", "_HOSTHEADER")]
-        pk = [a for n, a in steps if n == "PARAMETER"] + [a.partition(b"=")[0] for n, a in steps if n == "_PARAMETER"]
         ini = {"uri": ini["uri"], "params": {**{k: b"stale-" + k for k in pk}, **ini["params"]}, "headers": {**{k: b"stale-" + k for k in hk}, **ini["headers"]}}
         survivors = {"uri": ini["uri"], "params": {k: v for k, v in ini["params"].items() if k not in pk}, "headers": {k: v for k, v in ini["headers"].items() if k not in hk}}
     base_uri = ini["uri"] if ini else b""
